@@ -170,7 +170,7 @@ Definition timer_add (fx : fixes) (st : lp) (p dur data chk : Z) : lp :=
   let check := to_i32 chk in
   let h := mk_handle check i in
   let (now, st) := read_clock st in
-  let timer := mkT (expire_of fx now dur) (next_tid st) i in
+  let timer := mkT (expire_of fx now dur) (next_tid st) i now dur in
   let st := bump_tid st in
   match heap_add (heap st) timer with
   | None => set_err st
@@ -277,7 +277,8 @@ Definition make_job_from_tmo (now : Z) (st : lp) (tm : tmr) : lp :=
     if negb (s_state t =? LT_ENTRY_ACTIVE) then set_err st          (* assert(t->state == QB_POLL_ENTRY_ACTIVE) *)
     else
       let st := level_item_add st (s_prio t) (ITimer (t_data tm)) in
-      put_slot st (t_data tm) (with_fire (with_state (with_th t None) LT_ENTRY_JOBLIST) now)
+      put_slot st (t_data tm)
+               (mkS LT_ENTRY_JOBLIST (s_check t) (s_prio t) (s_data t) None (t_add tm) (t_dur tm) now)
   end.
 
 (* expire_the_timers = timerlist_expire + the callbacks; returns expired_timers *)
